@@ -128,6 +128,9 @@ def build(rng):
                 cycles=cycles)
 
 
+_STOPS = [0, 0]
+
+
 class Run:
     def __init__(self, sc, seed):
         import someip.config as C
@@ -169,7 +172,14 @@ class Run:
                 else:
                     sub.start(loop=self.h.loop)
             elif a["kind"] == "stop":
-                sub.stop()
+                # the component was started by itself (as tools/monitor-sd.py starts the discovery half); shutting down goes
+                # through the component or, every third time, through the whole stack's stop()
+                _STOPS[0] += 1
+                if _STOPS[0] % 3 == 2:
+                    self.prot.stop()
+                    _STOPS[1] += 1
+                else:
+                    sub.stop()
             elif a["kind"] == "sub":
                 sub.subscribe_eventgroup(self.egs[a["eg"]], SERVERS[a["srv"]])
             else:
@@ -296,6 +306,8 @@ def judge(ctx, sc, seed, replay):
     run = Run(sc, seed)
     problems = run.execute()
     ctx.count("scripts")
+    ctx.count("subscriber_stopped_through_the_stack", _STOPS[1])
+    _STOPS[1] = 0
     ctx.count("stop_start_cycles", sc["cycles"])
     for k, v in run.stats.items():
         ctx.count(k, v)
